@@ -139,11 +139,19 @@ def execute_step(env, step):
     if via == "property":
         if backend == "highs-wrapper" and highs_on_path:
             # rnapolis builds its own HiGHS_CMD(); the default must then be irrelevant
-            env.set_default(None if step.get("default", "none") == "none" else env.decoy_solver())
+            want = None if step.get("default", "none") == "none" else env.decoy_solver()
         else:
-            env.set_default(solver)
+            want = solver
     else:
-        env.set_default(None if step.get("default", "none") == "none" else env.decoy_solver())
+        want = None if step.get("default", "none") == "none" else env.decoy_solver()
+    # the default-solver slot is process-global state: it is (re)assigned only when the step's world differs from
+    # the previous step's.  While the world stays the same, whatever the code under test left in the slot stays
+    # there - as in a real process - so a change that clears or swaps the default after a failure is felt by the
+    # following conversions.
+    spec = ("none" if want is None else type(want).__name__, id(want))
+    if getattr(env, "default_spec", None) != spec:
+        env.set_default(want)
+        env.default_spec = spec
     obs = {"raised": None, "db": None, "consumer": None, "discard": None}
     healthy = None
     if op in ("mapping_extended", "mapping_extract"):
